@@ -100,6 +100,20 @@ def run_engine(work, spec):
     return o, None, dt
 
 
+_NETNS = None
+
+
+def netns_available():
+    global _NETNS
+    if _NETNS is None:
+        try:
+            _NETNS = subprocess.run(["unshare", "-n", "sh", "-c", "ip link set lo up"], stdout=subprocess.DEVNULL,
+                                    stderr=subprocess.DEVNULL, timeout=20).returncode == 0
+        except Exception:  # noqa
+            _NETNS = False
+    return _NETNS
+
+
 def native_replay(work, nat_overlay, rel, cases, timeout=600):
     """Runs the cases natively; returns {id: result} or raises."""
     if not cases:
@@ -113,6 +127,10 @@ def native_replay(work, nat_overlay, rel, cases, timeout=600):
         os.remove(cout)
     env = dict(GOENV, ZZ_REPLAY_IN=cin, ZZ_REPLAY_OUT=cout)
     cmd = ["go", "test", "-vet=off", "-count=1", "-tags", "verif", "-overlay", ov, "-run", "^TestZZReplay$", "./" + rel]
+    # the native environments bind fixed loop-back endpoints (127.0.0.1..3:8805, :2152); a private
+    # network namespace keeps two checks running at the same time from colliding on them
+    if netns_available():
+        cmd = ["unshare", "-n", "sh", "-c", 'ip link set lo up && exec "$@"', "sh"] + cmd
     p = subprocess.run(cmd, cwd=REPO, env=env, stdout=subprocess.PIPE, stderr=subprocess.STDOUT, text=True, timeout=timeout)
     if not os.path.exists(cout):
         raise RuntimeError("native replay failed:\n" + p.stdout[-3000:])
